@@ -98,3 +98,44 @@ func (g *gen) refDataStream() {
 		g.add(&Input{Schema: bad, Data: `{"age":42}`, Expect: cSchemaErr, Kind: "ref-through-$id:dangling"})
 	}
 }
+
+// Load(A), Load(B), [Load(C)], then ValidateData against the bytes returned for A: what
+// Load returned must stay A (no aliasing of a reused buffer).  Equal and different
+// serialized lengths.
+func (g *gen) interleavedLoadStream(scs []*scenario, n int) {
+	mk := func(maximum int, pad string) string {
+		return fmt.Sprintf(`{"type":"object","properties":{"age":{"type":"integer","maximum":%d}},"required":["age"],"title":%q}`, maximum, pad)
+	}
+	a, b := mk(100, "rev"), mk(200, "rev") // equal serialized length
+	longer, shorter := mk(200, "a much longer title than the first revision has"), `{"type":"object"}`
+	bad := `{"type":"objekt","title":"same length as nothing in particular"}`
+	for _, c := range []struct {
+		schema string
+		after  []string
+		data   string
+		expect int
+	}{
+		{a, []string{b}, `{"age":150}`, cInvalid}, {b, []string{a}, `{"age":150}`, cValid},
+		{a, []string{b, a, b}, `{"age":150}`, cInvalid}, {a, []string{longer}, `{"age":150}`, cInvalid},
+		{a, []string{longer}, `{"age":50}`, cValid}, {longer, []string{a}, `{"age":150}`, cValid},
+		{longer, []string{shorter}, `{"age":250}`, cInvalid}, {a, []string{shorter}, `{"age":50}`, cValid},
+		{a, []string{shorter, longer}, `{"age":150}`, cInvalid}, {a, []string{bad}, `{"age":50}`, cValid},
+		{bad, []string{a}, `{"age":50}`, cSchemaErr}, {a, nil, `{"age":150}`, cInvalid},
+	} {
+		g.add(&Input{Mode: 4, Schema: c.schema, LoadAfter: c.after, Data: c.data, Expect: c.expect, Kind: "load-interleaved"})
+	}
+	rng := g.cfg.Rng
+	for i := 0; i < n && len(scs) >= 2; i++ {
+		x, y, z := scs[rng.Intn(len(scs))], scs[rng.Intn(len(scs))], scs[rng.Intn(len(scs))]
+		after := []string{y.schema.Text()}
+		if i%2 == 0 {
+			after = append(after, z.schema.Text())
+		}
+		g.add(&Input{Mode: 4, Schema: x.schema.Text(), LoadAfter: after, Data: x.root.valid().Text(), Expect: cValid, Kind: "load-interleaved:generated"})
+		if len(x.root.bad) > 0 {
+			if v := x.root.bad[rng.Intn(len(x.root.bad))].gen(); v != nil && v.K == kObj {
+				g.add(&Input{Mode: 4, Schema: x.schema.Text(), LoadAfter: after, Data: v.Text(), Expect: cInvalid, Kind: "load-interleaved:generated"})
+			}
+		}
+	}
+}
